@@ -603,7 +603,9 @@ impl<S: WebSocket, T: TimestampProvider> Task<S, T> {
             buf: Bytes::new(),
             tx_msg_tx: self.tx_msg_tx.clone(), // cheap
             dropped_flows_tx: self.dropped_flows_tx.clone(), // cheap
-            rwnd_threshold: self.default_rwnd_threshold.min(peer_rwnd),
+            // We can never receive more than our own `rwnd` frames between two
+            // `Acknowledge`s, so the threshold must not exceed it or the peer stalls.
+            rwnd_threshold: self.default_rwnd_threshold.min(peer_rwnd).min(self.rwnd),
         };
         (stream, stream_data)
     }
